@@ -77,7 +77,8 @@ def int_items():
 def str_items():
     groups = {}
     strs = [('abc', b'abc'), ('a', b'a'), ('ab', b'ab'), ('\\x41\\x42', b'AB'), ('a\\"b', b'a"b'), ('a\\\\b', b'a\\b'), ('\\65\\66\\67', b'ABC'), ('a\\nb', b'a\nb'),
-            ('a\\tb', b'a\tb'), ('x;y', b'x;y'), ('x,y', b'x,y'), ("it's", b"it's")]
+            ('a\\tb', b'a\tb'), ('x;y', b'x;y'), ('x,y', b'x,y'), ("it's", b"it's"),
+            ('ab\\0cd', b'ab\0cd'), ('a\\x00', b'a\0'), ('\\0b', b'\0b')]      # a NUL character is a character like any other
     for cpu, mn, w, en in INTK:
         its = groups.setdefault(cpu, [])
         for txt, raw in strs:
